@@ -149,13 +149,13 @@ func CoqVal(v *Val) string {
 	case "null":
 		return "VNull"
 	case "int":
-		return "(VLeaf (JNum " + vh.CoqZ(v.I) + "))"
+		return "(VLeaf (LNum " + vh.CoqZ(v.I) + "))"
 	case "str":
-		return "(VLeaf (JStr " + vh.CoqString(v.S) + "))"
+		return "(VLeaf (LStr " + vh.CoqString(v.S) + "))"
 	case "bool":
-		return "(VLeaf (JBool " + vh.CoqBool(v.B) + "))"
+		return "(VLeaf (LBool " + vh.CoqBool(v.B) + "))"
 	case "enum":
-		return "(VLeaf (JStr " + vh.CoqString(ColorNames[v.I]) + "))"
+		return "(VLeaf (LStr " + vh.CoqString(ColorNames[v.I]) + "))"
 	case "list":
 		xs := make([]string, len(v.L))
 		for i, e := range v.L {
